@@ -1,10 +1,35 @@
 CFG = {
     "id": "C01",
-    "level_text": "WORK IN PROGRESS",
-    "level_note": "",
+    "level_text": "Proof over executable Gallina models of the red-black tree (gods delete variant), the AVL tree, the B-tree of any "
+                  "order m >= 3 and of treemap / treeset / treebidimap: for EVERY list of Put/Remove/Clear/Get/Size/Empty/Keys/Values/"
+                  "Left/Right/Floor/Ceiling (and GetKey, Add/Remove/Contains batches) calls, every key/value type and every comparator "
+                  "satisfying the three order laws, each call on the model returns exactly what the same call on the reference sorted "
+                  "association list returns (C01_rb, C01_avl, C01_bt for all m >= 3, C01_tmap, C01_tset, C01_bidi_refines); the bidi-map's "
+                  "forward and inverse trees stay mutually inverse through every overwrite pattern (C01_bidi_bijection). The reference "
+                  "map keeps its keys strictly ascending (hence unique), binds each key to the last value put, is unchanged by removing an "
+                  "absent key and changes only the bound value on re-putting a present key (C01_spec_*). The models are tied to the code "
+                  "on every run: the harness drives the REAL containers (plain and Safe* wrappers) with bounded-exhaustive (every distinct "
+                  "reachable state x every next operation) and profiled random call sequences, records everything every query returned, "
+                  "and Coq replays each sequence through the model (kind 1) and through the reference map (kind 2).",
+    "level_note": "All clauses have a theorem. C01_bt quantifies over operation lists without Floor/Ceiling (the B-tree has no such "
+                  "methods). C01_bidi_bijection is stated for comparators that separate keys (cmp a b = 0 -> a = b: true of the built-in "
+                  "int/string comparators), so that 'GetKey v = k' is an equality of keys; the call-by-call refinement C01_bidi_refines "
+                  "needs no such premise. Min/Max/Floor/Ceiling of treemap return zero key/value when absent (modelled and proved so). "
+                  "The AVL refinement carries the balance invariant in its relation (without it the fix-ups would dereference a missing "
+                  "child: avl_refine_needs_ok_* witnesses).",
+    "widen_runs": 1,
     "harness": "c01",
-    "theorems": [("C01.Props", ["C01_int_comparator_laws"])],
-    "trusted": [],
-    "modelled": [],
-    "assumptions": [],
+    "theorems": [("C01.Props", [
+        "C01_rb", "C01_avl", "C01_bt", "C01_tmap", "C01_tset", "C01_bidi_refines", "C01_bidi_bijection",
+        "C01_spec_sorted", "C01_spec_last_value_put", "C01_spec_get_after_remove", "C01_spec_remove_absent",
+        "C01_spec_reput_present", "C01_int_comparator_laws"])],
+    "trusted": [
+        "comparator: theorems assume antisymmetry of sign, cmp a b = 0 <-> cmp b a = 0 and transitivity of <= 0 (premise CmpLaws, "
+        "proved for the built-in int comparator); the harness exercises Go int keys with IntComparator only",
+        "Keys()/Values() are modelled as the in-order walk of the tree; the iterator that produces them (parent-pointer walking) is "
+        "property C14's subject and is exercised here only through the recorded Keys/Values results",
+    ],
+    "modelled": ["String() printers, JSON (C15), iterators (C14) are not part of this model",
+                 "B-tree: sibling lookup by search(parent, deletedKey) is modelled by the child index (equal under search-tree order)"],
+    "assumptions": ["keys and values are Go int in the correspondence run (theorems: any type)", "sequential use (C11 covers the Safe* locks)"],
 }
